@@ -440,14 +440,21 @@ def handle (st : DState) (line : String) : DState × String :=
       let vars := vs.filterMap fun t =>
         match t.splitOn "=" with
         | [nb, v] => (match nb.splitOn ":" with
-          | [n, b] => do let b ← b.toNat?; let v ← v.toInt?; some (n, b, v)
+          | [n, b] => do let b ← (if b.startsWith "s" then (b.drop 1).toString else b).toNat?; let v ← v.toInt?; some (n, b, v)
+          | _ => none)
+        | _ => none
+      -- `name:s8=…` / `name:s16=…` : a signed variable or array
+      let sgn := (vs ++ as).filterMap fun t =>
+        match t.splitOn "=" with
+        | [nb, _] => (match nb.splitOn ":" with
+          | [n, b] => if b.startsWith "s" then some n else none
           | _ => none)
         | _ => none
       let arrs := as.filterMap fun t =>
         match t.splitOn "=" with
         | [nb, vs] =>
           let (n, b) := match nb.splitOn ":" with
-            | [n, b] => (n, (b.toNat?).getD 8)
+            | [n, b] => (n, ((if b.startsWith "s" then (b.drop 1).toString else b).toNat?).getD 8)
             | _ => (nb, 8)
           ((vs.splitOn ",").mapM String.toInt?).map fun l => (n, b, l)
         | _ => none
@@ -458,7 +465,7 @@ def handle (st : DState) (line : String) : DState × String :=
       (match funs with
        | none => (st, "badreq parse")
        | some funs =>
-         let s0 : CSem.Store := { vars := vars, arrs := arrs }
+         let s0 : CSem.Store := { vars := vars, arrs := arrs, sgn := sgn }
          match CSem.runMain m funs fuel s0 with
          | .ok _ s1 =>
            (st, "ok " ++ " ".intercalate (s1.vars.map fun p => p.1 ++ "=" ++ toString p.2.2) ++ " / " ++
